@@ -42,5 +42,5 @@ META = {'title': 'Audio arrives at exactly the configured rate and tracks the sp
  'level_note': COMMON_NOTE + ' PARTIAL: the f64 computation of the frame position (frame_pos, '
                'sample_count_for_frame_fraction) is not modelled bit-exactly - its result enters the model as an '
                'input whose assumed properties are checked at run time on every call, not proved; the AY part of a '
-               'sample and "finite" for the f32 samples are observed only. No bv_decide in C19. Open finding '
-               'C19/bounded.ay-low-rate (root cause C18/signal.low-rate, fix proposed_fixes/C18-1.diff).'}
+               'sample and "finite" for the f32 samples are observed only. No bv_decide in C19. Finding, fixed: '
+               'C19/bounded.ay-low-rate (root cause C18/signal.low-rate, fix commit 9244141 in /repo).'}
